@@ -97,6 +97,41 @@ func cmdSelftest(args []string) int {
 			}
 			o, _ := run(self, "check", "--property", m.property, "--tier", tier, "--repo", work, "--out", out)
 			okAll := true
+			if len(m.expect) == 1 && m.expect[0] == "stale-contract" {
+				// a renamed local that a contract names: the check must say that the contract file is out
+				// of date (machinery error, exit 2), not that the property is violated
+				if strings.Contains(o, "VIOLATION") || !strings.Contains(o, "MACHINERY-ERROR: contract error") {
+					fmt.Printf("SELFTEST-FALSE-ALARM %s (%s): expected contract errors only\n", filepath.Base(f), m.property)
+					bad++
+				} else {
+					fmt.Printf("SELFTEST-OK %s (%s, stale contract reported as such)\n", filepath.Base(f), m.property)
+				}
+				run("git", "-C", "/repo", "worktree", "remove", "--force", work)
+				os.RemoveAll(scratch)
+				continue
+			}
+			if len(m.expect) == 1 && m.expect[0] == "limit" {
+				// a behaviour-preserving change that the proofs are known not to survive (documented in
+				// DESIGN.md): the alarm must at least say that no failing input was found
+				viol, confirmed := 0, 0
+				for _, ln := range strings.Split(o, "\n") {
+					if strings.HasPrefix(ln, "VIOLATION") {
+						viol++
+						if !strings.HasSuffix(strings.TrimSpace(ln), "no-failing-input-found") {
+							confirmed++
+						}
+					}
+				}
+				if confirmed > 0 {
+					fmt.Printf("SELFTEST-FALSE-ALARM %s (%s): a behaviour-preserving change is reported with a replayed failing input\n", filepath.Base(f), m.property)
+					bad++
+				} else {
+					fmt.Printf("SELFTEST-KNOWN-LIMIT %s (%s): %d undischarged obligations, none with a failing input\n", filepath.Base(f), m.property, viol)
+				}
+				run("git", "-C", "/repo", "worktree", "remove", "--force", work)
+				os.RemoveAll(scratch)
+				continue
+			}
 			if len(m.expect) == 1 && m.expect[0] == "quiet" {
 				// a behaviour-preserving change: the check must stay silent
 				if strings.Contains(o, "VIOLATION") || strings.Contains(o, "MACHINERY-ERROR") {
